@@ -2,8 +2,8 @@ module verifharness
 
 go 1.21.3
 
-require (
-	github.com/ModChain/secp256k1 v0.0.0
-)
+require github.com/ModChain/secp256k1 v0.0.0
+
+require github.com/ModChain/blake256 v1.0.0 // indirect
 
 replace github.com/ModChain/secp256k1 => /repo
